@@ -96,12 +96,19 @@ def _legacy_reduce_case(rng):
                 sel = [slice(None) if k == n else rng.randrange(dl[k]) for k in v['dims']]
                 for i in np.atleast_1d(idx[tuple(sel)]).ravel().tolist():
                     v['data'][i] = None
-    return dict(kind='reduce', spec=spec, fns=[[n, fn]], text='%s,%s' % (n, fn))
+    case = dict(kind='reduce', spec=spec, fns=[[n, fn]], text='%s,%s' % (n, fn))
+    others = [d[0] for d in spec['dims'] if d[0] != n]
+    if others and rng.random() < 0.4:
+        # a second call on the result, along another dimension: what lacks that dimension (the float means of integer
+        # variables among it) goes through unchanged
+        case['then'] = '%s,%s' % (rng.choice(others), rng.choice(['sum', 'max', 'mean']))
+    return case
 
 
 def _legacy_convolve_case(rng):
-    """convolve_dim(f, 'dim,mode,w1,w2,...') with symmetric and asymmetric dyadic weights (unmasked files)"""
-    spec = pfile.gen_file(rng, maxlen=5, minlen=3, masked_prob=0.0)
+    """convolve_dim(f, 'dim,mode,w1,w2,...') with symmetric and asymmetric dyadic weights; masked variables: a sum that a
+    missing cell would enter is missing"""
+    spec = pfile.gen_file(rng, maxlen=5, minlen=3, masked_prob=rng.choice([0.0, 0.5]))
     for v in spec['vars']:
         if v['dtype'] == 'f':
             v['dtype'] = 'd'
@@ -356,6 +363,18 @@ def gen(rng, tier):
     out = [_case(rng) for _ in range(n)]
     out += [_direct_case(rng) for _ in range(n // 4)]
     out += [_legacy_reduce_case(rng) for _ in range(n // 8)]
+    # on every run: the float mean of an integer variable handed through a second call along a dimension it lacks
+    found = 0
+    for _ in range(2000):
+        c = _legacy_reduce_case(rng)
+        d1, fn = c['fns'][0]
+        if c.get('then') and fn in ('mean', 'std', 'var') and any(
+                v['dtype'] == 'i' and not v['masked'] and d1 in v['dims'] and c['then'].split(',')[0] not in v['dims'] and
+                len(set(v['data'])) > 1 for v in c['spec']['vars']):
+            out.append(c)
+            found += 1
+            if found == 3:
+                break
     out += [_legacy_convolve_case(rng) for _ in range(n // 10)]
     out += [_ioapi_case(rng) for _ in range(n // 10)]
     return out
@@ -387,7 +406,13 @@ def impl(case):
         try:
             with lib.pnc_warnings(), np.errstate(all='ignore'):
                 o = (reduce_dim if case['kind'] == 'reduce' else convolve_dim)(f, case['text'])
-            return dict(obs=pfile.observe(o), nans=_unmasked_nans(o))
+                res = dict(obs=pfile.observe(o), nans=_unmasked_nans(o))
+                if case.get('then'):
+                    try:
+                        res['then_obs'] = pfile.observe(reduce_dim(o, case['then']))
+                    except Exception as e:
+                        res['then_err'] = '%s: %s' % (type(e).__name__, str(e)[:100])
+            return res
         except Exception as e:
             return dict(err=type(e).__name__, msg=str(e)[:100])
     f = pfile.build(case['spec'])
@@ -541,6 +566,12 @@ def _oracle_legacy(case, res):
                 mod = np.ma if v['masked'] else np
                 with np.errstate(all='ignore'):
                     arr = getattr(mod, fn)(arr, axis=ax, keepdims=True)
+            elif v['masked']:
+                # weights over the values with the missing ones set to zero; missing wherever a missing cell lies in the window
+                dat = np.apply_along_axis(lambda x: np.convolve(w32, x, mode=case['mode']), ax, np.ma.filled(arr, 0.))
+                hit = np.apply_along_axis(lambda x: np.convolve(np.ones(len(w32)), x, mode=case['mode']), ax,
+                                          np.ma.getmaskarray(arr).astype('d'))
+                arr = np.ma.masked_array(dat, mask=hit > 0)
             else:
                 arr = np.apply_along_axis(lambda x: np.convolve(w32, x, mode=case['mode']), ax, arr)
         g = got['vars'].get(v['name'])
@@ -563,6 +594,18 @@ def _oracle_legacy(case, res):
                 return '%s: variable %s cell %d masked=%s, numpy gives masked=%s' % (case['text'], v['name'], i, c == '_', bool(m2[i]))
             if c != '_' and abs(float(Fraction(c)) - d2[i]) > 1e-9 * max(1.0, abs(d2[i])):
                 return '%s: variable %s cell %d = %s, numpy gives %r' % (case['text'], v['name'], i, c, d2[i])
+    if case.get('then'):
+        if 'then_err' in res:
+            return '%s then %s raised %s' % (case['text'], case['then'], res['then_err'])
+        d2name = case['then'].split(',')[0]
+        after = pfile.parse_obs(res['then_obs'])
+        for v in spec['vars']:
+            if d2name in v['dims']:
+                continue
+            a, b = got['vars'].get(v['name']), after['vars'].get(v['name'])
+            if b is None or (a['dims'], a['shape'], a['cells']) != (b['dims'], b['shape'], b['cells']):
+                return '%s then %s: variable %s lacks %s but changed: %s -> %s' % (
+                    case['text'], case['then'], v['name'], d2name, a['cells'][:80], b and b['cells'][:80])
     return None
 
 
